@@ -30,8 +30,10 @@ HDR = ("From Coq Require Import List ZArith Bool.\n"
        "Definition perm_eqb (a b : list Z) : bool := (Z.of_nat (length a) =? Z.of_nat (length b)) && forallb (fun x => cnt x a =? cnt x b) a.\n"
        "Fixpoint list_eqb (a b : list Z) : bool := match a, b with [], [] => true | x :: s, y :: t => (x =? y) && list_eqb s t | _, _ => false end.\n"
        "Definition opt (want got : Z) : bool := (want <? 0) || (want =? got).\n"
+       "(* expected forwards [-1] = not compared *)\n"
+       "Definition fw_ok (got want : list Z) : bool := match want with [w] => if w =? -1 then true else perm_eqb got want | _ => perm_eqb got want end.\n"
        "Definition out_ok (s : wstate) (o : out) (x : xout) : bool := let '(fl, fw, ba, nr, fr, en) := x in\n"
-       "  (fcode (o_flag o) =? fl) && perm_eqb (map (fun f => e_uid (f_ev f)) (o_fwd o)) fw && list_eqb (map (fun u => e_uid (u_ev u)) (o_batch o)) ba\n"
+       "  (fcode (o_flag o) =? fl) && fw_ok (map (fun f => e_uid (f_ev f)) (o_fwd o)) fw && list_eqb (map (fun u => e_uid (u_ev u)) (o_batch o)) ba\n"
        "  && opt nr (Z.of_nat (o_nreq o)) && opt fr (w_from s) && opt en (if w_enabled s then 1 else 0).\n"
        "Fixpoint chk (c : cfg) (s : wstate) (ops : list op) (xs : list xout) : bool :=\n"
        "  match ops, xs with [], [] => true | o :: t, x :: xt => let '(s', r) := step c s o in out_ok s' r x && chk c s' t xt | _, _ => false end.\n"
@@ -97,6 +99,8 @@ def z(n):
 
 
 class Tr:
+    ignore_reobs_fwd = False   # C09 does not judge what a re-observation forwards (that is C08)
+
     def __init__(self, row):
         self.row = row
         self.sid = {"ALPH": 1, "Alephium": 2}
@@ -211,7 +215,7 @@ class Tr:
                 ht = "None" if s["height"] is None else "(Some %d)" % s["height"]
                 ops.append("RO %d %d %s %s %s ta %s %s %s" % (s["chain"], s["txlen"], st, ev, hd, mc, ht, z(s["lo"] - self.base)))
                 fl = {"ok": 0, "panic": 3}.get(s["res"], 9)
-                xs.append("(%d, %s, [], -1, -1, -1)" % (fl, core.glist(str(u) for u in s["fwd"])))
+                xs.append("(%d, %s, [], -1, -1, -1)" % (fl, "[-1]" if self.ignore_reobs_fwd else core.glist(str(u) for u in s["fwd"])))
         text = ("(let T := %s in let ev := look E0 T in let ta := look McErr %s in let hd := look (@None header) %s in\n"
                 "  let L := map ev %s in let tok := fun i => tokof ta (look E0 L i) in\n"
                 "  ({| c_gov := 0; c_bridge := 1; c_mainnet := %s |}, %d, %s, %s))"
@@ -220,8 +224,9 @@ class Tr:
         return text
 
 
-def model_compare(ctx, name, rows):
+def model_compare(ctx, name, rows, ignore_reobs_fwd=False):
     """run the model on every recorded history inside Coq; returns (#compared, mismatching rows)"""
+    Tr.ignore_reobs_fwd = ignore_reobs_fwd
     usable, skipped = [], {}
     texts = {}
     for r in rows:
